@@ -197,6 +197,8 @@ type Program struct {
 	TyAlias bool   // package ty imported under an alias
 	Quirk   string // source-level quirk for known streams ("" = none)
 	QuirkK  int    // the task a sig-* quirk applies to
+	SigP    string // sig-shape: parameter kinds of the task function (c ctx, v value), "V" suffix = variadic
+	SigR    string // sig-shape: result kinds (v value, e error)
 	Site    string // call site of the directive: assign | return | if | arg
 	ModSub  bool   // flow lies in the subset modifier mode supports
 
@@ -334,7 +336,7 @@ func (p *Program) SpecLines() []string {
 	if site == "" {
 		site = "assign"
 	}
-	add("P %d meta stream=%s generic=%d tyalias=%d quirk=%s quirkk=%d site=%s modsubset=%d", p.PID, p.Stream, b2i(p.Generic), b2i(p.TyAlias), quirk, p.QuirkK, site, b2i(p.ModSub))
+	add("P %d meta stream=%s generic=%d tyalias=%d quirk=%s quirkk=%d psig=%s rsig=%s site=%s modsubset=%d", p.PID, p.Stream, b2i(p.Generic), b2i(p.TyAlias), quirk, p.QuirkK, dash(p.SigP), dash(p.SigR), site, b2i(p.ModSub))
 	if p.Kind == "flow" {
 		if len(p.Params) > 0 {
 			add("P %d params %s", p.PID, spaceList(p.Params))
@@ -564,6 +566,12 @@ func ParseFile(lines []string) ([]*Program, error) {
 					p.Quirk = kv["quirk"]
 				}
 				p.QuirkK, _ = strconv.Atoi(kv["quirkk"])
+				if kv["psig"] != "-" {
+					p.SigP = kv["psig"]
+				}
+				if kv["rsig"] != "-" {
+					p.SigR = kv["rsig"]
+				}
 				p.Site = kv["site"]
 				p.ModSub = kv["modsubset"] == "1"
 			case "params":
@@ -731,4 +739,11 @@ func SplitTok(tok string) (string, int) {
 		return tok[:i], atoi(tok[i+1:])
 	}
 	return tok, 0
+}
+
+func dash(s string) string {
+	if s == "" {
+		return "-"
+	}
+	return s
 }
